@@ -11,7 +11,7 @@ fn universe() -> Vec<String> {
             for mi in 0..=3 {
                 for pa in 0..=3 {
                     for pre in ["", "-rc"] {
-                        for build in ["", "+meta"] {
+                        for build in ["", "+meta", "+m.2"] {
                             v.push(format!("{base}@{ma}.{mi}.{pa}{pre}{build}"));
                         }
                     }
@@ -30,8 +30,8 @@ fn universe() -> Vec<String> {
 
 fn rand_version(r: &mut Rng) -> String {
     let num = |r: &mut Rng| -> String {
-        match r.below(8) {
-            0 => "0".into(),
+        match r.below(10) {
+            0 | 8 | 9 => "0".into(),
             1 => "18446744073709551615".into(),
             2 => "18446744073709551616".into(),
             3 => format!("0{}", r.below(10)),
@@ -136,8 +136,10 @@ fn permutations<T: Clone>(xs: &[T]) -> Vec<Vec<T>> {
 
 fn main() {
     let args = Args::parse();
-    let mut r = Rng::new(args.seed);
-    let mut out = Out::create(&args.out, "c15-");
+    // shards of one run use different random streams (and different strides of the universe)
+    let shard = args.num("shard", 0) as u64;
+    let mut r = Rng::new(args.seed.wrapping_mul(1_000_003).wrapping_add(shard));
+    let mut out = Out::create(&args.out, &format!("c15-{shard}-"));
     let uni = universe();
     let thorough = args.thorough();
 
@@ -254,7 +256,7 @@ fn main() {
                 let base = ["a:b/c", "x"][base_pick];
                 let ma = r.below(2) + if r.chance(1, 2) { 0 } else { 1 };
                 format!("{base}@{}.{}.{}{}{}", ma, r.below(3), r.below(4), if r.chance(1, 8) { "-rc" } else { "" },
-                        ["", "", "+meta", "+b2", "+1", "+01"][r.below(6)])
+                        ["", "", "+meta", "+b2", "+1", "+01", "+b.7", "+2024.01.15"][r.below(8)])
             } else {
                 (*r.pick(&valid)).clone()
             };
@@ -265,7 +267,8 @@ fn main() {
         let mut queries: Vec<String> = names.clone();
         for _ in 0..6 {
             let base = ["a:b/c", "x"][if r.chance(5, 6) { base_pick } else { 1 - base_pick }];
-            queries.push(format!("{base}@{}.{}.{}{}", r.below(3), r.below(3), r.below(5), if r.chance(1, 10) { "-rc" } else { "" }));
+            queries.push(format!("{base}@{}.{}.{}{}{}", r.below(3), r.below(3), r.below(5), if r.chance(1, 10) { "-rc" } else { "" },
+                                 ["", "", "", "+q.1"][r.below(4)]));
         }
         queries.push(["a:b/c", "x"][base_pick].to_string());
         for p in permutations(&names) {
